@@ -22,8 +22,10 @@ def sig(case, idx, verdict):
 
 def check(ctx):
     vlib.translate(ctx, [("startup_guard", "StartupGuard.lean"), ("event_tasks", "EventTasks.lean"),
-                         ("scheduler_tasks", "SchedulerTasks.lean")])
-    vlib.prove(ctx, ["KrillModel.Props.C09"])
+                         ("scheduler_tasks", "SchedulerTasks.lean"),
+                         # closure body of Queue::schedule_task regenerated from the source; C09Src: generated = model
+                         ("pure_fns:C09", "PureFns.lean")])
+    vlib.prove(ctx, ["KrillModel.Props.C09", "KrillModel.Props.C09Src"])
     found = False
     if vlib.build_harness(ctx, ["queue"]):
         n, length = (400, 20) if ctx.tier == "quick" else (20000, 40)
